@@ -248,7 +248,7 @@ def insert_loop_specs(body, loops):
                 head = re.sub(r'\bin\b', 'in %s:' % spec['iter'], head, count=1)
             ins = ''
             if spec.get('invariant'):
-                ins += '\n invariant\n' + ''.join('   %s,\n' % s for s in spec['invariant'])
+                ins += '\n invariant\n' + ''.join('   %s, // @inv loop%d.%d\n' % (s, k, q) for q, s in enumerate(spec['invariant']))
             if spec.get('invariant_except_break'):
                 ins += '\n invariant_except_break\n' + ''.join('   %s,\n' % s for s in spec['invariant_except_break'])
             if spec.get('ensures'):
@@ -360,7 +360,7 @@ def render_fn(fnitem, mode, contract, tparams=('T',), scalar='R', indent='    ')
     if c.prologue and not is_decl:
         k = body.index('{')
         body = body[:k + 1] + '\n' + indent + '    ' + c.prologue + body[k + 1:]
-    s = indent
+    s = indent + '// @fn %s\n' % (c.tag or fnitem.name) + indent
     if c.external_body:
         s += '#[verifier::external_body]\n' + indent
     s += pre.strip()
